@@ -182,6 +182,8 @@ def template_task(task):
 
     def scenario(m):
         ctx = m.ctx
+        if extra.get('max_steps'):
+            m.max_steps = extra['max_steps']
         params = []
         for i in range(nparams):
             p = ctx.fresh_bv('p%d' % i)
@@ -200,6 +202,7 @@ def template_task(task):
             raise NotEncodable('answer limit reached')
         m.reify_report = reify_checks(m, res) if not extra.get('user') else None
         m.second_run = None
+        m.more_runs = None
         if extra.get('hash_orders'):
             # C09: the same query again, with the iteration order of the hash containers chosen by the solver
             m.hash_mode = 'fork'
@@ -207,6 +210,21 @@ def template_task(task):
             res2 = m.call(name, list(params) + [limit])
             m.hash_mode = 'insertion'
             m.second_run = PG.engine_answers(m, res2)
+            # ... and with EVERY hash iteration of the run reversed / rotated (order dependence deep in a run)
+            m.more_runs = []
+            for hm in extra.get('order_modes', ('reverse', 'rotate')):
+                m.hash_mode = hm
+                m.hash_flip = False
+                resn = m.call(name, list(params) + [limit])
+                m.hash_mode = 'insertion'
+                m.more_runs.append((hm, PG.engine_answers(m, resn)))
+        m.alt_runs = []
+        for hm in extra.get('hash_modes', ()):
+            # soundness / completeness must hold under every iteration order of the hash-based stores
+            m.hash_mode = hm
+            resn = m.call(name, list(params) + [limit])
+            m.hash_mode = 'insertion'
+            m.alt_runs.append((hm, PG.engine_answers(m, resn)))
         return params, ea, fa
 
     def on_path(r):
@@ -244,6 +262,12 @@ def template_task(task):
         out['answers_seen'] += len(ea)
         out['covers'].add('answers' if ea else 'no-answers')
         second = getattr(r.machine, 'second_run', None)
+        for hm, other in (getattr(r.machine, 'more_runs', None) or []):
+            d3 = PG.compare(ctx, other, [(a[0], a[1]) for a in ea], 'sequence')
+            if d3 is not None:
+                rr, model = ctx.query()
+                add_issue('order-dependent', 'two runs of the same query that differ only in the iteration order of the hash-based stores (insertion order vs every iteration %sd) give different answer sequences: %s vs %s (%s)' % (
+                    hm[:-1] if hm == 'reverse' else hm, [PG.show_answer(a) for a in ea][:6], [PG.show_answer(a) for a in other][:6], d3), [H.model_int(model, p) for p in params], 'deterministic', None)
         if second is not None:
             d2 = PG.compare(ctx, second, [(a[0], a[1]) for a in ea], 'sequence')
             if d2 is not None:
@@ -252,6 +276,19 @@ def template_task(task):
                     [PG.show_answer(a) for a in ea][:6], [PG.show_answer(a) for a in second][:6], d2), [H.model_int(model, p) for p in params], 'deterministic', None)
         if rr_ is not None and rr_['named']:
             return      # the answers are not even closed; the semantic comparison below would be about something else
+        for hm, other in (getattr(r.machine, 'alt_runs', None) or []):
+            dh = PG.compare(ctx, other, fa, mode)
+            if dh is not None and PG.compare(ctx, ea, fa, mode) is None:
+                def is_ground_(t):
+                    return t[0] != 'var' and all(is_ground_(x) for x in t[1:] if isinstance(x, tuple))
+                rr, model = ctx.query()
+                pv = [H.model_int(model, p) for p in params]
+                if mode == 'multiset' and all(is_ground_(a[0]) and not a[1] for a in fa):
+                    exp = [norm_str(PG.show_term(a[0], model)) for a in fa]
+                    add_issue('answers-under-hash-order', 'with every iteration of the hash-based stores %s: %s (expected answers %s, engine answers %s; in insertion order the answers are right)' % (
+                        'reversed' if hm == 'reverse' else 'rotated', dh, exp, [norm_str(PG.show_term(e[0], model)) for e in other]), pv, 'repeat-multiset', exp)
+                else:
+                    add_issue('answers-under-hash-order', 'with every iteration of the hash-based stores %s: %s' % ('reversed' if hm == 'reverse' else 'rotated', dh), pv, 'deterministic', None)
         diff = PG.compare(ctx, ea, fa, mode)
         if len(out['samples']) < 2:
             out['samples'].append({'template': name, 'path_condition': [str(c)[:80] for c in ctx.pc[:6]],
@@ -371,6 +408,13 @@ def case_source(prop, name, progast, nparams, pv, kind, data, what, path, extra=
     elif kind == 'ccount':
         check = ('    let mut got: Vec<usize> = query.run().take(LIMIT).map(|r| r.q.constraints().count()).collect();\n'
                  '    got.sort();\n    assert_eq!(got, vec![%s], "number of constraints reported per answer");\n' % ', '.join(str(x) for x in data))
+    elif kind == 'repeat-multiset':
+        exp = ', '.join('"%s".to_string()' % e.replace('"', '\\"') for e in data)
+        check = ('    let re = |s: String| { let mut o = String::new(); let mut it = s.chars().peekable();\n'
+                 '        while let Some(c) = it.next() { o.push(c); if c == \'_\' { if it.peek() == Some(&\'.\') { it.next(); while it.peek().map_or(false, |d| d.is_ascii_digit()) { it.next(); } } } } o };\n'
+                 '    let mut expected: Vec<String> = vec![%s];\n    expected.sort();\n'
+                 '    // the hash-based stores are seeded differently on every run: the answers must be right on each of them\n'
+                 '    for _run in 0..300 {\n        let mut got: Vec<String> = query.run().take(LIMIT).map(|r| re(format!("{}", *r.q))).collect();\n        got.sort();\n        assert_eq!(got, expected);\n    }\n' % exp)
     else:
         exp = ', '.join('"%s".to_string()' % e.replace('"', '\\"') for e in data)
         srt = '    got.sort();\n    expected.sort();\n' if kind != 'sequence' else ''
